@@ -4,6 +4,9 @@ one and two levels deep, coroutine functions, generators, async generators; (b) 
 directly (exhaustive small scope, random, and an ill-formed stream); (c) token sequences for the grammar check."""
 import inspect
 import itertools
+import unittest.mock
+
+ANY_DEFAULT = unittest.mock.ANY      # a default that compares equal to everything
 
 KINDS = ["PO", "PK", "VP", "KO", "VK"]
 SRC_ANNOS = ["int", "str", "List[int]", "Optional[int]", "Dict[str, int]", "'Outer'"]
@@ -26,7 +29,7 @@ class PSpec:
         if self.anno:
             s += ": " + self.anno
         if self.default:
-            s += (" = " if self.anno else "=") + ("None" if self.default == "None" else "3")
+            s += (" = " if self.anno else "=") + {"None": "None", "ANY": "ANY"}.get(self.default, "3")
         return s
 
 
@@ -46,6 +49,8 @@ class FSpec:
         dec = {"CLASS": "@classmethod", "STATIC": "@staticmethod", "PROPERTY": "@property"}.get(self.fkind)
         if dec:
             lines.append(ind + dec)
+        for _ in range(getattr(self, "wraps", 0)):
+            lines.append(ind + "@_deco")          # stacked functools.wraps decorators
         parts = []
         prev = None
         for p in self.params:
@@ -102,14 +107,14 @@ def gen_params(rnd, present, total, long_names, receiver=None, annotate=0.2):
     first_default = rnd.randrange(0, npos + 1) if rnd.random() < 0.7 else npos
     for j in range(npos):
         kind = "PO" if j < counts["PO"] else "PK"
-        dflt = rnd.choice(["None", "other"]) if j >= first_default else None
+        dflt = rnd.choice(["None", "other", "other", "ANY"]) if j >= first_default else None
         ps.append(PSpec(mk_name(rnd, "p", idx, long_names and rnd.random() < 0.8), kind, dflt))
         idx += 1
     if counts["VP"]:
         ps.append(PSpec(mk_name(rnd, "args", idx, long_names and rnd.random() < 0.5), "VP"))
         idx += 1
     for _ in range(counts["KO"]):
-        dflt = rnd.choice([None, "None", "other"])
+        dflt = rnd.choice([None, "None", "other", "ANY"])
         ps.append(PSpec(mk_name(rnd, "k", idx, long_names and rnd.random() < 0.8), "KO", dflt))
         idx += 1
     if counts["VK"]:
@@ -180,10 +185,30 @@ def gen_module_specs(rnd, subsets, n_extra, n_edge=3, modname=None):
     for _ in range(n_extra):
         present = [k for k in KINDS if rnd.random() < 0.5]
         add(present, rnd.choice(PLACEMENTS))
+    specs += wrapped_async_specs(rnd, len(specs))
     specs += annotated_defaulted_specs(rnd, len(specs))
     specs += module_named_specs(rnd, len(specs), modname)
     specs += same_named_nested_specs(rnd, len(specs))
     return specs
+
+
+def wrapped_async_specs(rnd, base):
+    """coroutine functions / async methods (and a few others) under two or three stacked functools.wraps decorators,
+    and async methods that sort last in their class or are the only method of their class"""
+    out = []
+    places = [([], "MODULE"), (["Outer"], "INSTANCE"), (["Outer"], "CLASS"), (["Outer"], "STATIC"), (["Zeta"], "INSTANCE")]
+    for j, (path, fkind) in enumerate(rnd.sample(places, 3)):
+        s = make_spec(rnd, f"wrapped{base + j}", path, fkind, max_params=3)
+        s.flavour = "coroutine" if j < 2 else rnd.choice(FLAVOURS)
+        s.wraps = rnd.choice([2, 3])
+        out.append(s)
+    last = make_spec(rnd, "zz_sorts_last", rnd.choice([["Outer"], ["Zeta"]]), rnd.choice(["INSTANCE", "CLASS", "STATIC"]), 2)
+    last.flavour = "coroutine"
+    out.append(last)
+    only = make_spec(rnd, "only_method", ["Solo"], "INSTANCE", 2)
+    only.flavour = "coroutine"
+    out.append(only)
+    return out
 
 
 def annotated_defaulted_specs(rnd, base):
@@ -271,7 +296,9 @@ def history_specs(rnd, n=8):
 
 
 def module_source(specs):
-    out = ["from typing import Dict, List, Optional", "", ""]
+    out = ["import functools", "from typing import Dict, List, Optional", "from unittest.mock import ANY", "", "",
+           "def _deco(f):", "    @functools.wraps(f)", "    def wrapper(*args, **kwargs):", "        return f(*args, **kwargs)",
+           "    return wrapper", "", ""]
     for s in specs:
         if not s.path:
             out.append(s.src(""))
@@ -343,12 +370,12 @@ def make_signature(rnd, kinds, long_names=False, anno_p=0.4, validate=True, defa
         if k in ("PO", "PK"):
             if defaults_mode == "valid":
                 if j >= first_default:
-                    default = rnd.choice([None, 3, "x"])
+                    default = rnd.choice([None, 3, "x", ANY_DEFAULT])
             elif rnd.random() < 0.5:
                 default = rnd.choice([None, 3])
             j += 1
         elif k == "KO" and rnd.random() < 0.5:
-            default = rnd.choice([None, 3, "x"])
+            default = rnd.choice([None, 3, "x", ANY_DEFAULT])
         anno = rnd.choice(annos) if rnd.random() < anno_p else inspect.Parameter.empty
         params.append(inspect.Parameter(name, PK_[k], default=default, annotation=anno))
     ret = rnd.choice(annos) if rnd.random() < 0.4 else inspect.Signature.empty
